@@ -49,7 +49,7 @@ func VerifC14Include() {
 	diskSrc := "D[{{ v }}{{ s }}{{ q }}]"
 	cacheSrc := "C[{{ v }}{{ q }}{{ s }}]"
 	e := NewEngine()
-	state := nd.Choice(7)
+	state := nd.Choice(9)
 	want := ""
 	wantErr := false
 	switch state {
@@ -73,6 +73,16 @@ func VerifC14Include() {
 		_, err = e.ParseTemplateAndCache([]byte(cacheSrc), target, 1)
 		nd.Assert(err == nil, "cache-parse-again")
 		want = cacheSrc
+	case 7: // a registration that fails to parse registers nothing: the earlier source stays
+		_, err := e.ParseTemplateAndCache([]byte(cacheSrc), target, 1)
+		nd.Assert(err == nil, "cache-parse")
+		_, err = e.ParseTemplateAndCache([]byte("{% if v %}unterminated"), target, 1)
+		nd.Assert(err != nil, "bad-registration-fails")
+		want = cacheSrc
+	case 8: // a failed registration alone registers nothing
+		_, err := e.ParseTemplateAndCache([]byte("{% if v %}unterminated"), target, 1)
+		nd.Assert(err != nil, "bad-registration-fails")
+		wantErr = true
 	case 6: // registered under another path only: not found
 		_, err := e.ParseTemplateAndCache([]byte(cacheSrc), target+".other", 1)
 		nd.Assert(err == nil, "cache-parse")
@@ -159,5 +169,23 @@ func VerifC14Nested() {
 	}
 	out, err := tpl.RenderString(Bindings{"v": v})
 	nd.Assert(err == nil && out == "[1(2"+vItoa(v)+")"+vItoa(v)+"]", "nested-include")
+	// a chain through another directory: every include of the render resolves relative to the
+	// directory of the path the template being rendered was parsed with (here root), on disk and in
+	// the cache alike
+	nd.SetFile(filepath.Join(root, "sub", "a2.html"), "A({% include 'b2.html' %})", 0)
+	nd.SetFile(filepath.Join(root, "sub", "b2.html"), "WRONG-DIR", 0)
+	inCache := nd.Choice(2) == 1
+	if inCache {
+		_, cerr := e.ParseTemplateAndCache([]byte("B{{ v }}"), filepath.Join(root, "b2.html"), 1)
+		nd.Assert(cerr == nil, "cache-parse")
+	} else {
+		nd.SetFile(filepath.Join(root, "b2.html"), "B{{ v }}", 0)
+	}
+	tpl2, perr2 := e.ParseTemplateLocation([]byte("[{% include 'sub/a2.html' %}]"), incPath, 1)
+	nd.Assert(perr2 == nil, "includer-parses")
+	if perr2 == nil {
+		out, err = tpl2.RenderString(Bindings{"v": v})
+		nd.Assert(err == nil && out == "[A(B"+vItoa(v)+")]", "nested-include-across-directories")
+	}
 	nd.Reach("C14.nested")
 }
